@@ -1,24 +1,28 @@
 /-
   SpVerif.Model.History — a pool of `simple_parsing.ArgumentParser`s as a state machine.
 
-  What lives where in the code:
+  What lives where in the code (anchors: /repo at c681aea):
     * process-global spelling settings `G` = the three `FieldWrapper` class attributes
-      (wrappers/field_wrapper.py:97-103), overwritten by EVERY constructor (parsing.py:149-151) and read
-      when option strings are generated (field_wrapper.py:591-595) — i.e. during `_preprocessing`, which
-      (since the D5 repair) first re-asserts the parser's OWN settings on the class (parsing.py:539-544), so
-      `G` is written by parses too but no longer influences any result;
-    * per parser: its own settings (`spec.cfg`, parsing.py:145-147, only used by `set_defaults`), the
-      registered dataclasses (`_wrappers`, parsing.py:278), the `_preprocessing_done` latch
-      (parsing.py:144,527-554), the argparse actions added so far (`table`), the defaults pushed
-      into the wrappers by `set_defaults` (parsing.py:385-438), whether `--config_path` was already
-      added to the parser itself (parsing.py:338) and the subgroup choices resolved by the first
-      `_preprocessing` (parsing.py:536-538, 599-773).
+      (wrappers/field_wrapper.py:97-103), overwritten by EVERY constructor (parsing.py:149-151) and READ
+      when option strings are generated (field_wrapper.py:599-604) — i.e. during `_preprocessing`, which
+      (since the D5 repair 7b430cf) first WRITES the parser's own settings to the class (parsing.py:553-558).
+      The model threads `G` through `preprocess` exactly like that (write, then read what was written); the
+      pre-repair variant (`Env.reassert = false`: read whatever is there) is kept so that `Props/C08` can show
+      the statement is sensitive to those lines;
+    * per parser: its own settings (`spec.cfg`, parsing.py:145-147), the registered dataclasses (`_wrappers`,
+      parsing.py:284), the `_preprocessing_done` latch (parsing.py:144,550-583), the argparse actions added so
+      far (`table`), the defaults pushed into the wrappers by `set_defaults` (parsing.py:408-461) and the ones
+      that fell through to argparse's parser-level `_defaults` (`stray`, parsing.py:461), whether `--config_path`
+      was already added to the parser itself (parsing.py:348-358) and the subgroup choices resolved by the
+      first `_preprocessing` (parsing.py:559-561, 629-803).
 
   The call counters of the `parse_tuple` closures hanging off the actions (field_parsing.py:223-256) are NOT part
-  of the state any more: since the D8 repair (b1a5942) every completed occurrence of a tuple option advances its
-  counter by exactly the tuple length, the item type is chosen modulo that length, and a rejected value resets
-  the counter — so between two calls the closure is behaviourally in its initial state and every call starts
-  `Model/Engine` with all counters at 0 (within one call the engine still counts: the option may be repeated).
+  of the state: since the D8 repair (b1a5942) the item type is chosen modulo the tuple length, a rejected value
+  resets the counter, and an accepted command line leaves every counter a multiple of its arity — the last fact is
+  a theorem about `Model/Engine` (`C04.c04_counters_aligned`: `Aligned tbl cs → run … cs … = .ok … cs' → Aligned
+  tbl cs'`; `C02.c02_tuple_occurrence`: an aligned counter converts an occurrence exactly as counter 0 does), the
+  reset is checked on the real closures after every call (observable `closures_at_tuple_start` of the plug-in).
+  Every call therefore starts `Model/Engine` with all counters at 0.
 
   Fragment: flat dataclasses (fields of `Model/Fields`) with at most one `subgroups(...)` field whose
   alternatives are flat dataclasses; AUTO conflict resolution with no clashing option strings;
@@ -60,7 +64,7 @@ structure Reg where
 structure Spec where
   cfg : Cfg
   cfgPath : Bool            -- `add_config_path_arg=True`
-  cfgFiles : List Str       -- `config_path=[…]` of the constructor (re-applied by every parse, parsing.py:300-306)
+  cfgFiles : List Str       -- `config_path=[…]` of the constructor (re-applied by every parse, parsing.py:306-312)
   regs : List Reg
   deriving DecidableEq, Repr
 
@@ -68,7 +72,7 @@ structure Spec where
 abbrev FileC := List (Str × List (Str × Val))
 
 /-- content of a config file: `{dest: {field: value}}`, or — the layout `set_defaults` expects from a
-    WITHOUT_ROOT parser with a single dataclass (parsing.py:389-396) — `{field: value}` -/
+    WITHOUT_ROOT parser with a single dataclass (parsing.py:412-419) — `{field: value}` -/
 inductive FileJ
   | rooted (c : FileC)
   | rootless (kv : List (Str × Val))
@@ -78,6 +82,9 @@ inductive FileJ
 structure Env where
   fenv : FEnv
   files : List (Str × Option FileJ)
+  /-- code variant: `true` = the current tree (`_preprocessing` re-asserts the parser's own settings on the
+      FieldWrapper class, 7b430cf); `false` = the tree before that repair, kept for `C08.d5_old_witness` only -/
+  reassert : Bool := true
 
 /-- a registration after `_resolve_subgroups`: the chosen key of its subgroup field, if it has one -/
 structure FReg where
@@ -97,6 +104,7 @@ structure Inst where
 
 inductive Out
   | ok (insts : List Inst) (subgroups : List (Str × Val)) (cfg : Option Val) (extras : List Str)
+       (other : List (Str × Val))    -- any other attribute of the namespace (argparse parser-level defaults)
   | exit (code : Nat) (kind : ExitKind)
   | raise (exc : Str)
   | unit                          -- print_help / format_help / construct / add_arguments returned
@@ -113,13 +121,14 @@ structure PState where
   late : List Reg := []                     -- registrations appended after `_preprocessing` ran
   fileDefs : FileC := []                    -- defaults pushed into the wrappers by `set_defaults`
   cfgDefault : Option Val := none           -- `--config_path` already added to this parser, with this default
+  stray : List (Str × Val) := []            -- argparse `parser._defaults`: file keys that matched no wrapper
   broken : Bool := false                    -- left the modelled fragment
   deriving DecidableEq, Repr
 
 /-- the parser right after its constructor and its `add_arguments` calls -/
 def newP (spec : Spec) : PState := { spec := spec }
 
-/-! ### `_preprocessing` (parsing.py:523-554) -/
+/-! ### `_preprocessing` (parsing.py:546-583) -/
 
 def fieldDest (dest name : Str) : Str := dest ++ '.' :: name
 
@@ -140,7 +149,7 @@ def subAct (G : Cfg) (dest : Str) (s : SubSpec) : Act :=
     choices := some (s.alts.map (·.key)), required := false, default := some (.sc (.str s.default)) }
 
 /-- `--m` with a strict `--`-prefix of one of its spellings: the subgroup-choice parser is built with
-    `allow_abbrev=False` (parsing.py:645) while `Model/Engine` always abbreviates — outside the fragment -/
+    `allow_abbrev=False` (parsing.py:675) while `Model/Engine` always abbreviates — outside the fragment -/
 def abbrevRisk (acts : List Act) (argv : List Str) : Bool :=
   argv.any (fun t =>
     match t with
@@ -149,9 +158,9 @@ def abbrevRisk (acts : List Act) (argv : List Str) : Bool :=
       acts.any (fun a => a.opts.any (fun o => startsWith o pre && o != pre))
     | _ => false)
 
-/-- `_resolve_subgroups` (parsing.py:599-773) for flat alternatives: one round of
+/-- `_resolve_subgroups` (parsing.py:629-803) for flat alternatives: one round of
     `argparse.ArgumentParser(add_help=False, allow_abbrev=False).parse_known_args(args)` over the
-    subgroup flags of all registrations; no subgroup field ⇒ no parse at all (parsing.py:626-628) -/
+    subgroup flags of all registrations; no subgroup field ⇒ no parse at all (parsing.py:656-658) -/
 def chooseAll (env : Env) (G : Cfg) (regs : List Reg) (args : List Str) : Except Out (List FReg) :=
   let acts := regs.filterMap (fun r => r.cls.sub.map (subAct G r.dest))
   if acts.isEmpty then .ok (regs.map (fun r => { reg := r, key := none }))
@@ -169,7 +178,7 @@ def chooseAll (env : Env) (G : Cfg) (regs : List Reg) (args : List Str) : Except
             | _ => none }))
 
 /-- `DataclassWrapper.add_arguments` (dataclass_wrapper.py:183-214) for one registration and, right
-    after it, for the child wrapper of the chosen alternative (`_flatten_wrappers`, parsing.py:1118-1122) -/
+    after it, for the child wrapper of the chosen alternative (`_flatten_wrappers`, parsing.py:1148-1152) -/
 def customAct (custom : List (Str × BConv)) (f : FieldSpec) (a : Act) : Act :=
   match custom.lookup f.name with
   | some c => { a with conv := .base c }       -- `custom_arg_options.get("type", …)` (field_wrapper.py:398)
@@ -214,22 +223,30 @@ inductive PreOut
   | ok (p : PState)
   | stop (p : PState) (o : Out)
 
-/-- `_preprocessing(args)`: early return once done; otherwise re-assert the parser's OWN settings on the
-    FieldWrapper class (so the spelling below is `p.spec.cfg`, whatever other constructors ran), resolve the
-    subgroups FROM THIS argv, add one action per field, and latch -/
-def preprocess (env : Env) (p : PState) (args : List Str) : PreOut :=
+/-- the body of `_preprocessing(args)` (parsing.py:546-583) while the FieldWrapper class attributes are `Gr`:
+    early return once done; otherwise resolve the subgroups FROM THIS argv, add one action per field — every
+    option string READS the class attributes — and latch -/
+def preprocessAt (env : Env) (Gr : Cfg) (p : PState) (args : List Str) : PreOut :=
   if p.preDone then .ok p
   else
-    match chooseAll env p.spec.cfg p.spec.regs args with
+    match chooseAll env Gr p.spec.regs args with
     | .error (.unmodelled w) => .stop { p with broken := true } (.unmodelled w)
     | .error o => .stop p o
     | .ok fregs =>
-      match tableFor p.spec.cfg p.fileDefs p.table fregs with
+      match tableFor Gr p.fileDefs p.table fregs with
       | none => .stop { p with broken := true } (.unmodelled "field outside the fragment / clashing options")
       | some tbl =>
         .ok { p with preDone := true, table := tbl, frozen := fregs }
 
-/-! ### `_postprocessing` (parsing.py:556-597, 775-991) -/
+/-- `_preprocessing(args)` with the class attributes threaded: after the early-return check the parser WRITES its
+    own settings to the class (parsing.py:553-558, the D5 repair), then everything below READS the class -/
+def preprocess (env : Env) (G : Cfg) (p : PState) (args : List Str) : PreOut × Cfg :=
+  if p.preDone then (.ok p, G)
+  else
+    let G1 := if env.reassert then p.spec.cfg else G
+    (preprocessAt env G1 p args, G1)
+
+/-! ### `_postprocessing` (parsing.py:586-627, 805-1021) -/
 
 def instOf (defs : FileC) (ns : List (Str × Val)) (fr : FReg) : Except Out Inst :=
   let r := fr.reg
@@ -248,7 +265,7 @@ def instOf (defs : FileC) (ns : List (Str × Val)) (fr : FReg) : Except Out Inst
     | some _, none => .error (.unmodelled "unresolved subgroup")
 
 /-- a registration that came after `_preprocessing`: no action was ever added for its fields, so each field
-    receives `field.default` (parsing.py:963 `parsed_arg_values.pop(field.dest, field.default)`) -/
+    receives `field.default` (parsing.py:1002 `parsed_arg_values.pop(field.dest, field.default)`) -/
 def lateInst (defs : FileC) (r : Reg) : Except Out Inst :=
   match r.cls.sub with
   | some _ => .error (.unmodelled "late registration with a subgroup field")
@@ -257,7 +274,7 @@ def lateInst (defs : FileC) (r : Reg) : Except Out Inst :=
     | .error e => .error (.raise e)
     | .ok fs => .ok { dest := r.dest, cls := r.cls.name, fields := fs, sub := none }
 
-/-- the subgroup flags' own parsed values, moved to `namespace.subgroups` (parsing.py:775-792) -/
+/-- the subgroup flags' own parsed values, moved to `namespace.subgroups` (parsing.py:805-822) -/
 def subgroupsOf (ns : List (Str × Val)) (frozen : List FReg) : List (Str × Val) :=
   frozen.filterMap (fun fr => fr.reg.cls.sub.bind (fun s =>
     (ns.lookup (fieldDest fr.reg.dest s.name)).map (fun v => (fieldDest fr.reg.dest s.name, v))))
@@ -267,7 +284,7 @@ def cfgDest : Str := "config_path".toList
 /-- everything after `_preprocessing`: `super().parse_known_args` + `_postprocessing`; a pure function of the
     table, the wrapper list and the pushed defaults -/
 def finishOut (env : Env) (table : List Act) (frozen : List FReg) (late : List Reg)
-    (defs : FileC) (known : Bool) (rest : List Str) : Out :=
+    (defs : FileC) (stray : List (Str × Val)) (known : Bool) (rest : List Str) : Out :=
   let cs := table.map (fun _ => 0)
   match (if known then run env.fenv table cs rest else runStrict env.fenv table cs rest) with
   | .exit c k => .exit c k
@@ -277,9 +294,11 @@ def finishOut (env : Env) (table : List Act) (frozen : List FReg) (late : List R
     match frozen.mapM (instOf defs ns), late.mapM (lateInst defs) with
     | .error o, _ => o
     | _, .error o => o
-    | .ok a, .ok b => .ok (a ++ b) (subgroupsOf ns frozen) (ns.lookup cfgDest) extras
+    -- argparse: `for dest in self._defaults: if not hasattr(namespace, dest): setattr(…)`; `interpret` only
+    -- lets undotted names other than `config_path` through, no action owns such a dest
+    | .ok a, .ok b => .ok (a ++ b) (subgroupsOf ns frozen) (ns.lookup cfgDest) extras stray
 
-/-! ### the `--config_path` prologue of `parse_known_args` (parsing.py:308-343) -/
+/-! ### the `--config_path` prologue of `parse_known_args` (parsing.py:306-358) -/
 
 def cfgTempAct : Act :=
   { opts := ["--config_path".toList], dest := cfgDest, kind := .store, nargs := .star, conv := .base .path,
@@ -302,7 +321,7 @@ def unionDefs (a b : FileC) : FileC :=
 
 /-- what `set_defaults` knows when it reads a file: `self._wrappers` (destination ↦ field names) and whether the
     file is taken as root-less (`self.nested_mode == WITHOUT_ROOT and len(self._wrappers) == 1`,
-    parsing.py:389 — the parser's OWN nested mode) -/
+    parsing.py:412 — the parser's OWN nested mode) -/
 structure LoadCtx where
   wrappers : List (Str × List Str)
   rootless : Bool
@@ -320,33 +339,45 @@ def loadCtx (p : PState) : LoadCtx :=
     else p.spec.regs.map (fun r => (r.dest, plainNames r.cls))
   { wrappers := ws, rootless := p.spec.cfg.nest = .withoutRoot && ws.length = 1 }
 
-/-- the defaults one file pushes; `none` = the file does not fit the layout the parser expects (stray
-    namespace attributes / RuntimeError in the code) — outside the fragment -/
-def interpret (ctx : LoadCtx) : FileJ → Option FileC
+inductive Interp
+  | defs (c : FileC)                 -- pushed into the wrappers (`wrapper.set_default`)
+  | stray (kv : List (Str × Val))    -- no wrapper has such a dest: `super().set_defaults(**kwargs)` (parsing.py:461)
+  | foreign                          -- RuntimeError / nested dicts on the namespace …: outside the fragment
+
+/-- what one file does (parsing.py:410-461) -/
+def interpret (ctx : LoadCtx) : FileJ → Interp
   | .rooted c =>
     if !ctx.rootless && c.all (fun dk => match ctx.wrappers.lookup dk.1 with
         | some names => dk.2.all (fun kv => names.contains kv.1)
-        | none => false) then some c else none
+        | none => false) then .defs c else .foreign
   | .rootless kv =>
     match ctx.rootless, ctx.wrappers with
-    | true, [(d, names)] => if kv.all (fun x => names.contains x.1) then some [(d, kv)] else none
-    | _, _ => none
+    | true, [(d, names)] => if kv.all (fun x => names.contains x.1) then .defs [(d, kv)] else .foreign
+    | true, _ => .foreign
+    | false, ws =>
+      -- the file is NOT taken as root-less: its top-level keys are looked up among the wrappers' dests, none
+      -- matches, and they all become parser-level defaults, i.e. plain attributes of every later namespace
+      if kv.all (fun x => !(ws.any (fun w => w.1 = x.1)) && !x.1.contains '.' && x.1 != cfgDest
+                          && x.1 != "help".toList && x.1 != "subgroups".toList)
+      then .stray kv else .foreign
 
 inductive LoadOut
-  | ok (defs : FileC)
-  | missing (defs : FileC)        -- `FileNotFoundError` after the earlier files were applied
-  | foreign                       -- does not fit the expected layout: outside the fragment
+  | ok (defs : FileC) (stray : List (Str × Val))
+  | missing (defs : FileC) (stray : List (Str × Val))   -- `FileNotFoundError` after the earlier files were applied
+  | foreign                                              -- outside the fragment
+  deriving DecidableEq, Repr
 
-def loadFiles (env : Env) (ctx : LoadCtx) : FileC → List Str → LoadOut
-  | defs, [] => .ok defs
-  | defs, f :: fs =>
+def loadFiles (env : Env) (ctx : LoadCtx) : FileC → List (Str × Val) → List Str → LoadOut
+  | defs, st, [] => .ok defs st
+  | defs, st, f :: fs =>
     match env.files.lookup f with
-    | none => .missing defs
-    | some none => .missing defs
+    | none => .missing defs st
+    | some none => .missing defs st
     | some (some j) =>
       match interpret ctx j with
-      | some c => loadFiles env ctx (unionDefs defs c) fs
-      | none => .foreign
+      | .defs c => loadFiles env ctx (unionDefs defs c) st fs
+      | .stray kv => loadFiles env ctx defs (unionKV st kv) fs
+      | .foreign => .foreign
 
 def pathNames : List Scalar → List Str
   | [] => []
@@ -360,7 +391,7 @@ structure Scan where
   names : List Str
   deriving DecidableEq, Repr
 
-/-- `temp_parser.parse_known_args(args)` (parsing.py:314-329); without `add_config_path_arg` nothing is scanned -/
+/-- `temp_parser.parse_known_args(args)` (parsing.py:320-335); without `add_config_path_arg` nothing is scanned -/
 def cfgScan (env : Env) (cfgPath : Bool) (argv : List Str) : Except Out Scan :=
   if !cfgPath then .ok { rest := argv, v := .sc .none, names := [] }
   else
@@ -372,7 +403,7 @@ def cfgScan (env : Env) (cfgPath : Bool) (argv : List Str) : Except Out Scan :=
       let v := (ns.lookup cfgDest).getD (.sc .none)
       .ok { rest := rest, v := v, names := match v with | .list l => pathNames l | _ => [] }
 
-/-- `config_path_action.default = config_path`: the one action registered for `--config_path` (parsing.py:342-352) -/
+/-- `config_path_action.default = config_path`: the one action registered for `--config_path` (parsing.py:346-358) -/
 def setCfgDefault (v : Val) : List Act → List Act
   | [] => []
   | a :: rest => if a.dest = cfgDest then { a with default := some v } :: rest else a :: setCfgDefault v rest
@@ -381,14 +412,15 @@ inductive CfgOut
   | go (p : PState) (rest : List Str)
   | stop (p : PState) (o : Out)
 
-/-- the prologue of `parse_known_args` (parsing.py:300-352): constructor files, then the `--config_path` scan -/
+/-- the prologue of `parse_known_args` (parsing.py:306-358): constructor files, then the `--config_path` scan.
+    Nothing here READS the FieldWrapper class attributes (`set_defaults` uses `self.nested_mode`). -/
 def cfgPhase (env : Env) (p : PState) (argv : List Str) : CfgOut :=
   -- for config_file in self.config_path: self.set_defaults(config_file)   (every call)
-  match loadFiles env (loadCtx p) p.fileDefs p.spec.cfgFiles with
+  match loadFiles env (loadCtx p) p.fileDefs p.stray p.spec.cfgFiles with
   | .foreign => .stop { p with broken := true } (.unmodelled "constructor config file does not fit the layout")
-  | .missing defs => .stop { p with fileDefs := defs } (.raise "FileNotFoundError".toList)
-  | .ok defs0 =>
-    let p0 := { p with fileDefs := defs0 }
+  | .missing defs st => .stop { p with fileDefs := defs, stray := st } (.raise "FileNotFoundError".toList)
+  | .ok defs0 st0 =>
+    let p0 := { p with fileDefs := defs0, stray := st0 }
     if !p.spec.cfgPath then .go p0 argv
     else if !p.spec.cfgFiles.isEmpty then
       .stop { p0 with broken := true } (.unmodelled "config_path= together with add_config_path_arg")
@@ -397,74 +429,78 @@ def cfgPhase (env : Env) (p : PState) (argv : List Str) : CfgOut :=
       | .error (.unmodelled w) => .stop { p0 with broken := true } (.unmodelled w)
       | .error o => .stop p0 o
       | .ok sc =>
-        -- for config_file in config_paths: self.set_defaults(config_file)  (parsing.py:331-334)
-        match loadFiles env (loadCtx p0) p0.fileDefs sc.names with
+        -- for config_file in config_paths: self.set_defaults(config_file)  (parsing.py:337-340)
+        match loadFiles env (loadCtx p0) p0.fileDefs p0.stray sc.names with
         | .foreign => .stop { p0 with broken := true } (.unmodelled "config file does not fit the layout")
-        | .missing defs => .stop { p0 with fileDefs := defs } (.raise "FileNotFoundError".toList)
-        | .ok defs =>
+        | .missing defs st => .stop { p0 with fileDefs := defs, stray := st } (.raise "FileNotFoundError".toList)
+        | .ok defs st =>
           match p0.cfgDefault with
           | none =>
             -- first call: self.add_argument("--config_path", type=Path, default=config_path)
-            .go { p0 with fileDefs := defs, cfgDefault := some sc.v, table := p0.table ++ [cfgAct sc.v] } sc.rest
+            .go { p0 with fileDefs := defs, stray := st, cfgDefault := some sc.v,
+                          table := p0.table ++ [cfgAct sc.v] } sc.rest
           | some _ =>
             -- later calls: only the default of that action is refreshed (the D6 repair)
-            .go { p0 with fileDefs := defs, cfgDefault := some sc.v, table := setCfgDefault sc.v p0.table } sc.rest
+            .go { p0 with fileDefs := defs, stray := st, cfgDefault := some sc.v,
+                          table := setCfgDefault sc.v p0.table } sc.rest
+
+/-- the class attributes after the prologue: the temporary `--config_path` parser is CONSTRUCTED with this
+    parser's settings (parsing.py:320-326) — a constructor, so it writes them to the class -/
+def cfgG (env : Env) (G : Cfg) (p : PState) : Cfg :=
+  match loadFiles env (loadCtx p) p.fileDefs p.stray p.spec.cfgFiles with
+  | .ok _ _ => if p.spec.cfgPath && p.spec.cfgFiles.isEmpty then p.spec.cfg else G
+  | _ => G
 
 /-! ### the operations -/
 
 /-- `_preprocessing` + `super().parse_known_args` + `_postprocessing` on the state the prologue left -/
-def finishP (env : Env) (p1 : PState) (known : Bool) (rest : List Str) : PState × Out :=
-  match preprocess env p1 rest with
+def finishCore (env : Env) (r : PreOut) (known : Bool) (rest : List Str) : PState × Out :=
+  match r with
   | .stop p2 o => (p2, o)
   | .ok p2 =>
-    match finishOut env p2.table p2.frozen p2.late p2.fileDefs known rest with
+    match finishOut env p2.table p2.frozen p2.late p2.fileDefs p2.stray known rest with
     | .unmodelled w => ({ p2 with broken := true }, .unmodelled w)
     | o => (p2, o)
 
-/-- `parser.parse_args(argv)` (`known = false`) / `parser.parse_known_args(argv)` -/
-def parseP (env : Env) (p : PState) (known : Bool) (argv : List Str) : PState × Out :=
-  if p.broken then (p, .unmodelled "parser left the fragment earlier")
+def finishP (env : Env) (G : Cfg) (p1 : PState) (known : Bool) (rest : List Str) : PState × Out × Cfg :=
+  let r := preprocess env G p1 rest
+  ((finishCore env r.1 known rest).1, (finishCore env r.1 known rest).2, r.2)
+
+/-- `parser.parse_args(argv)` (`known = false`) / `parser.parse_known_args(argv)`, called while the class
+    attributes are `G`; returns the class attributes afterwards as well -/
+def parseP (env : Env) (G : Cfg) (p : PState) (known : Bool) (argv : List Str) : PState × Out × Cfg :=
+  if p.broken then (p, .unmodelled "parser left the fragment earlier", G)
   else
     match cfgPhase env p argv with
-    | .stop p1 o => (p1, o)
-    | .go p1 rest => finishP env p1 known rest
+    | .stop p1 o => (p1, o, cfgG env G p)
+    | .go p1 rest => finishP env (cfgG env G p) p1 known rest
+
+def helpCore (r : PreOut) : PState × Out :=
+  match r with
+  | .stop p2 o => (p2, o)
+  | .ok p2 => (p2, .unit)
 
 /-- `parser.print_help()` (parsing.py:396-406): while the parser is not set up, the constructor's `config_path=`
     files are applied first (like `parse_known_args` does — a missing file raises from here too), then
     `_preprocessing(args=[])` -/
-def helpP (env : Env) (p : PState) : PState × Out :=
-  if p.broken then (p, .unmodelled "parser left the fragment earlier")
-  else if p.preDone then (p, .unit)
+def helpP (env : Env) (G : Cfg) (p : PState) : PState × Out × Cfg :=
+  if p.broken then (p, .unmodelled "parser left the fragment earlier", G)
+  else if p.preDone then (p, .unit, G)
   else
-    match loadFiles env (loadCtx p) p.fileDefs p.spec.cfgFiles with
-    | .foreign => ({ p with broken := true }, .unmodelled "constructor config file does not fit the layout")
-    | .missing defs => ({ p with fileDefs := defs }, .raise "FileNotFoundError".toList)
-    | .ok defs =>
-      match preprocess env { p with fileDefs := defs } [] with
-      | .stop p2 o => (p2, o)
-      | .ok p2 => (p2, .unit)
+    match loadFiles env (loadCtx p) p.fileDefs p.stray p.spec.cfgFiles with
+    | .foreign => ({ p with broken := true }, .unmodelled "constructor config file does not fit the layout", G)
+    | .missing defs st => ({ p with fileDefs := defs, stray := st }, .raise "FileNotFoundError".toList, G)
+    | .ok defs st =>
+      let r := preprocess env G { p with fileDefs := defs, stray := st } []
+      ((helpCore r.1).1, (helpCore r.1).2, r.2)
 
-/-- the FieldWrapper class attributes after a parse call: the temporary `--config_path` parser is CONSTRUCTED with
-    this parser's settings (parsing.py:314-320) and `_preprocessing` re-asserts them (parsing.py:539-544); a call
-    that stops before either (constructor file missing) or does neither leaves them alone -/
-def gAfterParse (env : Env) (G : Cfg) (p : PState) : Cfg :=
-  if p.broken then G
-  else
-    match loadFiles env (loadCtx p) p.fileDefs p.spec.cfgFiles with
-    | .ok _ => if p.spec.cfgPath || !p.preDone then p.spec.cfg else G
-    | _ => G
-
-def gAfterHelp (env : Env) (G : Cfg) (p : PState) : Cfg :=
-  if p.broken || p.preDone then G
-  else
-    match loadFiles env (loadCtx p) p.fileDefs p.spec.cfgFiles with
-    | .ok _ => p.spec.cfg
-    | _ => G
-
-/-- `parser.add_arguments(cls, dest)` (parsing.py:218-279): appended to `_wrappers`; once `_preprocessing` ran
+/-- `parser.add_arguments(cls, dest)` (parsing.py:224-285): appended to `_wrappers`; once `_preprocessing` ran
     nobody looks at new wrappers again until `_postprocessing` -/
 def addP (p : PState) (r : Reg) : PState × Out :=
   if p.spec.regs.any (fun q => q.dest = r.dest) then ({ p with broken := true }, .unmodelled "destination reused")
+  else if !p.stray.isEmpty then
+    -- `_add_arguments` consults `self._defaults` (parsing.py:523-543): outside the fragment
+    ({ p with broken := true }, .unmodelled "registration while parser-level defaults exist")
   else
     let spec := { p.spec with regs := p.spec.regs ++ [r] }
     if p.preDone then ({ p with spec := spec, late := p.late ++ [r] }, .unit)
@@ -506,12 +542,12 @@ def step (env : Env) (s : State) : Op → State × Out
     match s.pool i with
     | none => (s, .unmodelled "no such parser")
     | some p =>
-      let (p', o) := parseP env p known argv
-      ({ G := gAfterParse env s.G p, pool := setPool s.pool i p' }, o)
+      let r := parseP env s.G p known argv
+      ({ G := r.2.2, pool := setPool s.pool i r.1 }, r.2.1)
   | .printHelp i =>
     match s.pool i with
     | none => (s, .unmodelled "no such parser")
-    | some p => let (p', o) := helpP env p; ({ G := gAfterHelp env s.G p, pool := setPool s.pool i p' }, o)
+    | some p => let r := helpP env s.G p; ({ G := r.2.2, pool := setPool s.pool i r.1 }, r.2.1)
   | .formatHelp i =>
     -- `format_help` is not overridden: it prints whatever actions exist and changes nothing
     match s.pool i with
@@ -528,8 +564,9 @@ def runG (env : Env) : State → List Op → List Cfg
   | _, [] => []
   | s, op :: ops => (step env s op).1.G :: runG env (step env s op).1 ops
 
-/-- the answer of a freshly built, identically configured parser: a one-parser history -/
+/-- the answer of a freshly built, identically configured parser: a one-parser history (its own constructor was
+    the last one to write the class attributes) -/
 def fresh (env : Env) (spec : Spec) (known : Bool) (argv : List Str) : Out :=
-  (parseP env (newP spec) known argv).2
+  (parseP env spec.cfg (newP spec) known argv).2.1
 
 end SpVerif.History
